@@ -894,11 +894,30 @@ def check_tolerance_propagates(ctx: Ctx) -> None:
     ctx.ob("5.13-tolerance-propagates", con, bool(ok), "every normal way out of the tolerance setter passes self._post_set_tolerance(), after the value is stored: an early return (e.g. 'value unchanged') leaves the sub-disciplines' caches with their own tolerance, and perturbed points are served from them", node=(hooks or [setter])[0], stmt="the setter always runs the post-set hook")
 
 
+def check_hit_inputs(ctx: Ctx) -> None:
+    """5.14 on a hit the discipline's data are the inputs it was CALLED with plus the cached outputs: with a tolerance the
+    cached entry belongs to another (close) input, and a chain hands the returned data to the next discipline."""
+    from gv.dataflow import SymValues
+
+    f = ctx.index.method(BD, "BaseDiscipline", "__can_load_cache")
+    con = cname(BD, "BaseDiscipline", "__can_load_cache")
+    param = [a.arg for a in f.args.args if a.arg != "self"][0]
+    cfg = cfg_of(f)
+    sets = [c for c in walk_body(f) if isinstance(c, ast.Call) and norm_stmt(c.func) == "self._set_data_from_cache" and c.args]
+    ok = bool(sets)
+    sv = SymValues(f, max_len=600)
+    for c in sets:
+        for alt in sv.exprs(c.args[0]):
+            ok = ok and isinstance(alt, ast.Call) and dotted(alt.func) == "CacheEntry" and alt.args and norm_stmt(alt.args[0]) == param
+    ctx.ob("5.14-hit-inputs", con, bool(ok), f"on every branch the entry loaded into the discipline is CacheEntry({param}, <cached outputs>, ...): with a tolerance-based hit the inputs of the cached entry are those of the earlier, close-by call; putting them back makes the discipline (and the chain it belongs to) return and forward an input value nobody passed", node=(sets or [f])[0], stmt="the data of a hit are the caller's inputs + the cached outputs")
+
+
 def run(ctx: Ctx) -> None:
     check_approximation_bypasses_tolerance(ctx)
     check_execute(ctx)
     check_last_accessed(ctx)
     check_hash_bucket(ctx)
+    check_hit_inputs(ctx)
     check_tolerance_propagates(ctx)
     check_hit_untouched(ctx)
     check_copies(ctx)
